@@ -1211,6 +1211,16 @@ class Gen:
             e = self.fit(self.expr(env, 1, avoid=g if self.cal else None), gt) or self.smalllit(0, 50)
             self.emit(out, 1, ['%s = ' % g, e, ';'])
         else:
+            if kind == 'entry':
+                # same-width signed -> unsigned copies of parameters, made before any condition on the source
+                # (inside a branch that constrains the source the baseline is unsound: finding narrowing-keeps-range)
+                for t, n in params:
+                    if t in ('int', 'long', 'long long') and r.random() < 0.35:
+                        u = self.newvar('u')
+                        ut = UNSIGNED_OF[RANK[t]]
+                        self.emit(out, 1, ['%s %s = %s;' % (ut, u, n)])
+                        env.add('roscalar', u, ut)
+                        self.feat('sign-copy')
             nst = max(2, int(r.randint(3, 9) * self.size)) if kind == 'entry' else r.randint(1, 4)
             for _ in range(nst):
                 self.stmt(env, out, 1, 0, ret)
